@@ -681,3 +681,120 @@ func (d *decomp) parseRuleFunc(fl *ast.FuncLit, idx int, name string) Expr {
 	}
 	return nm.E
 }
+
+// AsGrammar reconstructs the grammar the generated parser actually runs: rule
+// functions with their inlined rules re-extracted as rules of their own.
+func (g *Generated) AsGrammar() (*Grammar, []string) {
+	out := &Grammar{ByName: map[string]*Rule{}}
+	var problems []string
+	bodies := map[string]Expr{}
+	var strip func(e Expr) Expr
+	strip = func(e Expr) Expr {
+		switch x := e.(type) {
+		case *Seq:
+			n := &Seq{}
+			for _, it := range x.Items {
+				n.Items = append(n.Items, strip(it))
+			}
+			return n
+		case *Choice:
+			n := &Choice{Switch: false}
+			for _, a := range x.Alts {
+				n.Alts = append(n.Alts, strip(a))
+			}
+			return n
+		case *Star:
+			return &Star{E: strip(x.E)}
+		case *Plus:
+			return &Plus{E: strip(x.E)}
+		case *Opt:
+			return &Opt{E: strip(x.E)}
+		case *Not:
+			return &Not{E: strip(x.E)}
+		case *And:
+			return &And{E: strip(x.E)}
+		case *Capture:
+			return &Capture{E: strip(x.E)}
+		case *Named:
+			b := strip(x.E)
+			if old, ok := bodies[x.Name]; ok {
+				if Normalize(old).String() != Normalize(b).String() {
+					problems = append(problems, "inlined copies of rule "+x.Name+" differ")
+				}
+			} else {
+				bodies[x.Name] = b
+			}
+			return &Ref{Name: x.Name}
+		}
+		return e
+	}
+	for name, gr := range g.Rules {
+		if gr.Err != "" || gr.E == nil {
+			problems = append(problems, "rule "+name+" could not be decompiled: "+gr.Err)
+			continue
+		}
+		bodies[name] = strip(gr.E)
+	}
+	maxAction := -1
+	for k := range g.Actions {
+		if k > maxAction {
+			maxAction = k
+		}
+	}
+	for k := 0; k <= maxAction; k++ {
+		a := &Action{Index: k}
+		if cc := g.Actions[k]; cc != nil {
+			var ss []string
+			for _, st := range cc.Body {
+				ss = append(ss, nodeString(st))
+			}
+			a.Code = strings.Join(ss, "\n")
+		}
+		out.Actions = append(out.Actions, a)
+	}
+	// attach code to action nodes
+	var attach func(e Expr)
+	attach = func(e Expr) {
+		switch x := e.(type) {
+		case *Seq:
+			for _, it := range x.Items {
+				attach(it)
+			}
+		case *Choice:
+			for _, a := range x.Alts {
+				attach(a)
+			}
+		case *Star:
+			attach(x.E)
+		case *Plus:
+			attach(x.E)
+		case *Opt:
+			attach(x.E)
+		case *Not:
+			attach(x.E)
+		case *And:
+			attach(x.E)
+		case *Capture:
+			attach(x.E)
+		case *Action:
+			if x.Index < len(out.Actions) {
+				x.Code = out.Actions[x.Index].Code
+			}
+		}
+	}
+	for _, name := range g.RuleNames {
+		if name == "Unknown" || name == "PegText" || strings.HasPrefix(name, "Action") {
+			continue
+		}
+		b, ok := bodies[name]
+		if !ok {
+			problems = append(problems, "rule "+name+" has no body in the generated parser")
+			continue
+		}
+		attach(b)
+		r := &Rule{Name: name, E: b}
+		out.Rules = append(out.Rules, r)
+		out.ByName[name] = r
+	}
+	return out, problems
+}
